@@ -45,6 +45,9 @@ REQUIRE = {
     "text_only_change_cases": 150,
     "rows_before_render_checks": 2500,
     "random_cases": 200,
+    "encoding_interleave_cases": 3000,
+    "encoding_switches_same_width": 2000,
+    "encoding_switches_same_width_trimmed_ellipsis": 150,
     "exh_strings:P0": 100,
     "dec_glyph_rows": 20,
     "enc:utf8/str": 2000,
@@ -65,7 +68,9 @@ RULE = (
     "exh_phase_complete:<phase> = number of shards that finished it). Rest of the budget: random texts to length 60 over "
     "ASCII/Latin-1/CJK/combining/ZWJ/VS16/emoji/line-drawing, widths to 40, encodings utf-8, euc-jp, gbk, big5, iso8859-1, "
     "ascii, koi8-r, plus same-config-other-width and text-only-change follow-ups (translation cache), pack(())/render(()) "
-    "and shift_line/trim_line window views. distinct = distinct case tuples; non-trivial = text non-empty"
+    "and shift_line/trim_line window views. Encoding histories: fixed and random cases are laid out at the same width under "
+    "interleaved encodings in one process (utf-8, cp1252, mac_roman, iso8859-1, cp1251, euc-jp, ascii, gbk; forward and "
+    "reversed), including 8-bit code pages whose ellipsis string equals utf-8's but encodes to other bytes. distinct = distinct case tuples; non-trivial = text non-empty"
 )
 ASSUMES = [
     "display width of a code point = max(0, wcwidth.wcwidth(cp)); str texts are judged by code point, bytes by the encoding mode",
@@ -77,10 +82,29 @@ ASSUMES = [
     "ellipsis mark: one of '…', '...', '..', '.' in the target encoding, required only for width >= 2; at width 1 ellipsis behaves as clip",
     "a zero-width-only line in clip/ellipsis may be rendered blank or with its zero-width characters",
     "text with a character wider than the width in any/space => exactly one empty line",
+    "the global encoding may change between layouts in one process (documented: 'a single global setting ... you may change'), "
+    "but a widget is only used under the encoding it was created under: widgets are kept per encoding and encodings are interleaved",
 ]
 
 EXH_ENCODINGS = [("utf-8", "utf8"), ("euc-jp", "wide"), ("iso8859-1", "narrow")]
-RND_ENCODINGS = [("utf-8", "utf8"), ("utf-8", "utf8"), ("euc-jp", "wide"), ("gbk", "wide"), ("big5", "wide"), ("iso8859-1", "narrow"), ("ascii", "narrow"), ("koi8-r", "narrow")]
+RND_ENCODINGS = [
+    ("utf-8", "utf8"),
+    ("utf-8", "utf8"),
+    ("euc-jp", "wide"),
+    ("gbk", "wide"),
+    ("big5", "wide"),
+    ("iso8859-1", "narrow"),
+    ("ascii", "narrow"),
+    ("koi8-r", "narrow"),
+    # 8-bit code pages that contain U+2026 as ONE byte: their ellipsis string is the same as utf-8's, the bytes differ
+    ("cp1252", "narrow"),
+    ("cp1251", "narrow"),
+    ("cp1250", "narrow"),
+    ("mac_roman", "narrow"),
+]
+# the order in which one (text, width, wrap, align) case is laid out under several encodings IN ONE PROCESS
+# (module-level caches keyed without the encoding only show under such histories); also run reversed
+ENC_CYCLE = ["utf-8", "cp1252", "utf-8", "mac_roman", "iso8859-1", "cp1251", "euc-jp", "ascii", "cp1252", "gbk", "utf-8"]
 WRAPS = ("any", "space", "clip", "ellipsis")
 ALIGNS = ("left", "center", "right")
 BASE_ALPHABET = ["a", "b", " ", "\n", "漢", "́"]
@@ -90,11 +114,32 @@ RANDOM_POOL = (
 )
 
 
+_MODES = dict(EXH_ENCODINGS + RND_ENCODINGS)
+
+
 def mode_of(enc):
-    for e, m in EXH_ENCODINGS + RND_ENCODINGS:
-        if e == enc:
-            return m
-    raise KeyError(enc)
+    return _MODES[enc]
+
+
+def fit_text(s, enc):
+    """the str restricted to the characters that are in the documented domain for enc"""
+    mode = mode_of(enc)
+    return "".join(c for c in s if valid_char(c, enc, mode))
+
+
+def interleave(ctx, st, s, width, wrap, align, order, as_bytes=False):
+    """one case under a sequence of encodings at the same width, in this process"""
+    last = None
+    for enc in order:
+        t = fit_text(s, enc)
+        text = to_bytes(t, enc, mode_of(enc)) if as_bytes else t
+        run_one(ctx, st, {"enc": enc, "text": text, "width": width, "wrap": wrap, "align": align}, light=True)
+        ctx.count("encoding_interleave_cases")
+        if last is not None and last != enc:
+            ctx.count("encoding_switches_same_width")
+            if wrap == "ellipsis" and max((M.Dec(t, "utf8").cwidth(a, b) for a, b in M.Dec(t, "utf8").paragraphs()), default=0) > width >= 2:
+                ctx.count("encoding_switches_same_width_trimmed_ellipsis")
+        last = enc
 
 
 def valid_char(ch, enc, mode):
@@ -148,6 +193,7 @@ class State:
         self.dec_key = None
         self.dec_val = None
         self.sig_cache = {}
+        self.recent = []
 
 
 def set_enc(st, enc):
@@ -396,10 +442,32 @@ def check_window(ctx, st, case, collect):
 
 # ------------------------------------------------------------------ signatures, shrinking, reporting
 
+def clear_module_caches():
+    """forget every functools cache in urwid modules so that a witness is judged from a clean process state"""
+    import sys
+
+    for name, mod in list(sys.modules.items()):
+        if name == "urwid" or name.startswith("urwid."):
+            for v in list(vars(mod).values()):
+                cc = getattr(v, "cache_clear", None)
+                if callable(cc) and hasattr(v, "cache_info"):
+                    cc()
+
+
 def evaluate(ctx, case):
-    """fresh, self-contained evaluation of a witness -> set of (clause, kind) and messages"""
+    """fresh, self-contained evaluation of a witness -> set of (clause, kind) and messages.
+    case['hist'] = earlier (encoding, width, wrap) layouts of the process, replayed first with a trimmed probe text."""
+    import urwid
+
+    clear_module_caches()
     st = State()
     out = []
+    for enc, w, wrap in case.get("hist") or ():
+        set_enc(st, enc)
+        try:
+            urwid.Text("x" * (w + 4) + " y", wrap=wrap).render((w,))
+        except Exception:  # noqa: BLE001  (judged when that was the case)
+            pass
     k = case.get("kind", "case")
     if k == "fixed":
         check_fixed(ctx, st, case, out)
@@ -422,6 +490,25 @@ def shrink(ctx, case, core):
             ctx.counters.update(snap)
 
     cur = dict(case)
+    if cur.get("hist"):
+        c = dict(cur, hist=None)
+        if still(c):
+            cur = c
+        else:
+            # keep the shortest suffix of the encoding history that still reproduces, then drop single entries
+            h = list(cur["hist"])
+            for n in range(1, len(h) + 1):
+                if still(dict(cur, hist=h[-n:])):
+                    h = h[-n:]
+                    break
+            i = 0
+            while i < len(h) and len(h) > 1:
+                h2 = h[:i] + h[i + 1 :]
+                if still(dict(cur, hist=h2)):
+                    h = h2
+                else:
+                    i += 1
+            cur = dict(cur, hist=h)
     if cur.get("prev") is not None:
         c = dict(cur, prev=None)
         if still(c):
@@ -523,10 +610,12 @@ def report(ctx, case, collected, cache=None):
         small = shrink(ctx, case, core)
         if small is None:
             # reproduces only on the long-lived widget: keep the case with its history
-            small = case
-            path = "reused-widget-only"
+            small = dict(case, hist=None)
+            path = "long-process-history-only"
         else:
             path = "with-history" if small.get("prev") else "fresh"
+            if small.get("hist"):
+                path = "after-other-encoding" if any(h[0] != small["enc"] for h in small["hist"]) else "after-earlier-layout"
             for a, b, m in evaluate_quiet(ctx, small):
                 if (a, b) == core:
                     msg = m
@@ -563,7 +652,11 @@ def evaluate_quiet(ctx, case):
 
 def witness_code(c):
     k = c.get("kind", "case")
-    head = f"import urwid; urwid.set_encoding({c['enc']!r}); "
+    head = "import urwid; "
+    for enc, w, wrap in c.get("hist") or ():
+        probe = "x" * (w + 4) + " y"
+        head += f"urwid.set_encoding({enc!r}); urwid.Text({probe!r}, wrap={wrap!r}).render(({w},)); "
+    head += f"urwid.set_encoding({c['enc']!r}); "
     if k == "window":
         return head + (
             f"from urwid import text_layout as TL; from urwid.canvas import apply_text_layout; t={c['text']!r}; "
@@ -595,7 +688,13 @@ def run_one(ctx, st, case, light=False):
     if kind == "case":
         key = (case["enc"], isinstance(case["text"], bytes))
         case["prev"] = st.prev.get(key)
+        case["hist"] = list(st.recent)
         check_case(ctx, st, case, out, light=light)
+        ent = [case["enc"], case["width"], case["wrap"]]
+        if ent in st.recent:
+            st.recent.remove(ent)
+        st.recent.append(ent)
+        del st.recent[:-24]
         st.prev[key] = {k: case[k] for k in ("text", "width", "wrap", "align")}
         ctx.counters["cases"] += 1
         ctx.counters[f"enc:{mode_of(case['enc'])}/{'bytes' if key[1] else 'str'}"] += 1
@@ -677,6 +776,18 @@ def _run(ctx):
                         run_one(ctx, st, {"enc": enc, "text": t, "width": w, "wrap": wrap, "align": al})
                 for k in range(0, 5):
                     run_one(ctx, st, {"kind": "window", "enc": enc, "text": t, "width": w, "shift": k})
+
+    # ---- directed: the same case under interleaved encodings (forward and reversed order), str and bytes
+    inter_texts = ["The quick brown fox\njumps over", "abc def ghi", "ab", "a b c d e f g", "héllo wörld… ok", "x" * 15, "漢字 ab 漢字漢字", "ab\n\ncdefgh ij"]
+    k = 0
+    for s0 in inter_texts:
+        for w in (1, 2, 3, 4, 5, 7, 9, 12):
+            for wrap in WRAPS:
+                k += 1
+                if not ctx.mine(k):
+                    continue
+                order = ENC_CYCLE if k % 2 else ENC_CYCLE[::-1]
+                interleave(ctx, st, s0, w, wrap, ALIGNS[k % 3], order, as_bytes=bool(k // 2 % 2))
 
     # ---- exhaustive core, in phases ordered by value so that a budget cut (loaded machine) loses the least:
     #   P0  every string of length <= 3 (quick) / 4 (thorough): full product widths x wraps x aligns x {str, bytes} x 3 encodings
@@ -780,7 +891,7 @@ def _run(ctx):
         run_one(ctx, st, case)
         ctx.counters["random_cases"] += 1
         if k <= 2:
-            ctx.sample({k2: v for k2, v in case.items() if k2 != "prev"})
+            ctx.sample({k2: v for k2, v in case.items() if k2 not in ("prev", "hist")})
         if rng.random() < 0.3:
             cut = rng.randint(0, len(s))
             s2 = s[cut:] + s[:cut] + rng.choice(("", "a", " b"))
@@ -790,6 +901,9 @@ def _run(ctx):
                 w2 = max(1, w + rng.choice((-7, -3, -2, -1, 1, 2, 5)))
                 run_one(ctx, st, dict(case, width=w2), light=True)
                 ctx.count("same_config_other_width_cases")
+        if rng.random() < 0.25:
+            others = rng.sample(ENC_CYCLE, 3)
+            interleave(ctx, st, s, w, case["wrap"], case["align"], [enc, *others, enc], as_bytes=isinstance(text, bytes))
         r = rng.random()
         if r < 0.1:
             run_one(ctx, st, dict(case, kind="fixed", prev=None))
